@@ -9,7 +9,7 @@ LEVEL = ("Static error discipline on every density evaluation reachable from Cha
          "path to LeapfrogResult::Ok passes a gate that a non-finite energy error cannot pass and that compares the energy error with "
          "max_energy_error (R2); recoverable errors become Divergence and unrecoverable ones Err, not the other way round (R3); the init "
          "gates dominate Ok (R5); the no-U-turn-check options differ from the caller's options only in check_turning (R6); a leapfrog that ended in a fault is still counted exactly once by the acceptance "
-         "collector, so a fault cannot turn the step-size statistic into 0/0 (R7, shared with C07-R7). "
+         "collector, so a fault cannot turn the step-size statistic into 0/0 (R7, shared with C07-R7) and every divergent or successful leapfrog is registered with the collector exactly once (R8, shared with C07-R8). "
          "Does not decide value statements ('returned position is finite') or two-fault sequences.")
 EXPLANATION = ("ERR classification over MIR def-use for all bodies reachable in the call graph from the Chain entry points; three-valued "
                "evaluation of the branch conditions that control the Ok / Divergence / Err constructions.")
@@ -367,4 +367,5 @@ def run(F, R, config="all"):
     # a faulted leapfrog must still be counted by the acceptance collector, otherwise the fault poisons the step-size statistic (0/0)
     from . import c07
     c07.r7(F, R, rid="C05-R7")
+    c07.r8(F, R, rid="C05-R8")
     R.assume("user-supplied Math implementations may return any error at any call; is_recoverable() is the documented classifier")
